@@ -1,5 +1,5 @@
 (* evaluation interface for the ideal air conditioner (fids 110-119) *)
-From MS Require Import lib.Base spec.RefAC spec.RefDevice extract.Run.
+From MS Require Import lib.Base model.Command model.Device model.Lan spec.RefAC spec.RefDevice extract.Run.
 Open Scope Z_scope.
 
 Definition astate_of (l : list Z) : astate :=
@@ -18,5 +18,10 @@ Definition run_e2e (fid : Z) (a : list (list Z)) : option out :=
   | 111 => Some (ok [bz (status_body (astate_of (arg a 0)))])
   | 112 => Some (ok [bz (ref_response_frame (argn a 0) (zb (arg a 1)))])
   | 113 => Some (ok [enc_astate astate0])
+  (* the client pipeline of C01_apply_v2: setter ops on a fresh device, then the V2 packet apply() writes for its control command *)
+  | 114 => let w0 := mkWorld dev_init ([] : list (list bytes)) (argn a 0) [] in
+           let '(w, _) := do_ops w0 (arg a 1) in
+           Some (of_res (do fn <- emit (argn a 0) (SetState (apply_ctrl (w_dev w))); v2_encode (zb (arg a 2)) (bigz (arg a 3)) (fst fn))
+                        (fun p => [bz p]))
   | _ => None
   end.
